@@ -9,7 +9,7 @@ out=/dev/shm/verif-mut-out-$$
 mkdir -p "$out"
 VERIF_OUT_DIR="$out" VERIF_BUILD_DIR=/dev/shm/verif-mut-build /verif/check "$prop" --tier quick --repo "$d" "$@" > "$out/log" 2>&1
 rc=$?
-grep -E "^(violation|VIOLATION|KNOWN|HARNESS|C[0-9]+ )" "$out/log" | cut -c1-300 | head -12
+grep -E "^(violation|VIOLATION|KNOWN|HARNESS|C[0-9]+ )" "$out/log" | cut -c1-300 | head -30
 echo "RESULT $(basename $patch) rc=$rc"
 rm -rf "$d" "$out"
 exit 0
